@@ -128,7 +128,7 @@ xd_run(const unsigned char *data, size_t len, int kind, size_t param, vf_rng *r,
 	static xd_ctx x;
 	br_x509_pkey *pk;
 	memset(o, 0, sizeof *o);
-	memset(&x, 0, sizeof x);
+	vf_raw_zero(&x, sizeof x);   /* holds a library context with guard bytes (hook H4) */
 	br_x509_decoder_init(&x.dc, xd_dn0, &x, xd_dn1, &x);
 	run_partition(xd_push, &x, data, len, kind, param, r);
 	oc_int(o, br_x509_decoder_last_error(&x.dc));
@@ -678,6 +678,45 @@ mode_tls(long long seed, int worker, int nworkers, int nrand, int nfault)
 					TP_VIOL("chunking:tls:faulted-stream-outcome-differs", what);
 					break;
 				}
+			}
+		}
+		/* structural faults: an unprotected alert record inserted at a record boundary of the cleartext
+		   phase (warning close_notify, ignorable warning, fatal alert, two alerts in one record) */
+		{
+			static const unsigned char alerts[4][5] = { { 2, 1, 0 }, { 2, 1, 90 }, { 2, 2, 40 }, { 4, 1, 90, 1, 0 } };
+			static unsigned char fs[1 << 17];
+			size_t o2 = 0;
+			int nb = 0, a;
+			while (o2 + 5 <= in_len && nb < 6) {
+				size_t rl = ((size_t)in_stream[o2 + 3] << 8) | in_stream[o2 + 4];
+				if (in_stream[o2] == 20 || o2 + 5 + rl > in_len) break;
+				for (a = 0; a < 4; a ++) {
+					size_t al = alerts[a][0], acc = 0;
+					int q;
+					outcome fr;
+					if (((nb + a) & 1) && nfault < 8) continue;      /* quick tier: half of the (position, alert) pairs */
+					memcpy(fs, in_stream, o2);
+					fs[o2] = 21; fs[o2 + 1] = in_stream[o2 + 1]; fs[o2 + 2] = in_stream[o2 + 2]; fs[o2 + 3] = 0; fs[o2 + 4] = (unsigned char)al;
+					memcpy(fs + o2 + 5, alerts[a] + 1, al);
+					memcpy(fs + o2 + 5 + al, in_stream + o2, in_len - o2);
+					/* the inserted bytes travel with the segment that starts at (or contains) the insertion point */
+					for (q = 0; q < nseg; q ++) { if (o2 < acc + segs[q].len) break; acc += segs[q].len; }
+					if (q == nseg) q = nseg - 1;
+					segs[q].len += 5 + al;
+					replay(&sc, seedv, 0, &r, fs, in_len + 5 + al, &fr, NULL, NULL);
+					for (k = 0; k < 3; k ++) {
+						replay(&sc, seedv, k == 0 ? 2 : 3, &r, fs, in_len + 5 + al, &o, NULL, NULL);
+						vf_stat("replays", 1); vf_stat("runs_inserted_alert", 1);
+						if (o.h != fr.h) {
+							snprintf(what, sizeof what, "alert record %s inserted at stream offset %zu: chunking %d gives [%s], segment-wise delivery gives [%s]",
+								vf_hexs(alerts[a] + 1, al), o2, k, o.txt, fr.txt);
+							TP_VIOL("chunking:tls:inserted-alert-outcome-differs", what);
+							break;
+						}
+					}
+					segs[q].len -= 5 + al;
+				}
+				o2 += 5 + rl; nb ++;
 			}
 		}
 		vf_distinct("input", "tls/%s/%04x/r%d/ca%d/%s", kxn[kx], v, res, ca, role ? "server" : "client");
